@@ -35,7 +35,7 @@ def configs(tier):
         for seq in itertools.product(MODES, repeat=r):
             out.append(dict(kind="stages", seq=list(seq)))
     for cls in ("WhiteBalance", "ColorBalance", "AffineBalance"):
-        for sw in ([3], [4], [1, 2]) + (() if tier == "quick" else ([6],)):
+        for sw in ([3], [4], [1, 2], [2, 2]) + (() if tier == "quick" else ([6], [2, 3])):
             out.append(dict(kind="recover", cls=cls, swatches=list(sw)))
     out.append(dict(kind="shortcuts"))
     return out
@@ -177,6 +177,8 @@ def body(cfg):
     got = bal.apply_balance(src)
     S.claim("ideal_fit_reproduces_the_destination_swatches", S.eq(got, dst))
     # the search starts at the current balance (identity for a new object)
+    if not CTX["calls"]:
+        return  # plain mode: the real optimiser ran, its start vector is not observable
     x0 = CTX["calls"][-1]["x0"]
     ident = {"WhiteBalance": [1, 1, 1], "ColorBalance": [1, 0, 0, 0, 1, 0, 0, 0, 1], "AffineBalance": [1, 0, 0, 0, 1, 0, 0, 0, 1, 0, 0, 0]}[cfg["cls"]]
     S.claim("search_starts_at_the_current_balance", S.eq(list(x0), ident))
